@@ -271,7 +271,8 @@ func (g *cg) List(d int) string {
 			es[i] = g.lit()
 		}
 		if n == 0 {
-			return "nil"
+			// a literal nil argument is refused by mapcar (C14's concern)
+			return "(list)"
 		}
 		return "'(" + strings.Join(es, " ") + ")"
 	}
@@ -325,7 +326,7 @@ func (g *cg) List(d int) string {
 		spliced := g.List(d)
 		elem := g.Int(d)
 		g.bq = true
-		if strings.HasPrefix(spliced, "'") || spliced == "nil" {
+		if strings.HasPrefix(spliced, "'") {
 			spliced = "(reverse " + spliced + ")"
 		}
 		return fmt.Sprintf("`(%s ,%s ,@%s %s)", g.lit(), elem, spliced, g.lit())
